@@ -1,10 +1,10 @@
 #!/bin/sh
-# tools/confirm_harmless.sh <PROP>: confirm the behaviour-preserving changes a sub-agent left in /tmp/harm/<PROP>.out (tests pass with each, its probe passes
+# tools/confirm_harmless.sh <PROP> [base dir=/tmp/harm] [index offset=0] (NOCHECK=1: leave the check runs to tools/par_recheck.py): confirm the behaviour-preserving changes a sub-agent left in /tmp/harm/<PROP>.out (tests pass with each, its probe passes
 # with and without it), store them under harmless/<PROP>-h<i>/ and run the property's quick check against each (applied to /repo, then undone):
 # the check must stay quiet.  Removes the agent's worktree /tmp/harm/<PROP>.
 set -u
-P=$1; SRC=/tmp/harm/$P.out
-git -C /repo worktree remove --force /tmp/harm/$P 2>/dev/null; git -C /repo worktree prune
+P=$1; BASE=${2:-/tmp/harm}; OFF=${3:-0}; SRC=$BASE/$P.out
+git -C /repo worktree remove --force $BASE/$P 2>/dev/null; git -C /repo worktree prune
 for I in 1 2 3; do
   [ -f $SRC/patch$I.diff ] || { echo "$P: no patch$I.diff"; continue; }
   WT=/tmp/confirm_h_${P}_${I}
@@ -21,13 +21,16 @@ for I in 1 2 3; do
     [ $DW = 0 ] && [ $DO = 0 ] || R=5
   fi
   git -C /repo worktree remove --force $WT
-  echo "$P-h$I: pytest exit $TR; probe with patch: exit $DW; without: exit $DO"
-  [ $R = 0 ] || { echo "$P-h$I NOT CONFIRMED (code $R)"; continue; }
-  D=/verif/harmless/$P-h$I
+  J=$((I+OFF))
+  echo "$P-h$J: pytest exit $TR; probe with patch: exit $DW; without: exit $DO"
+  [ $R = 0 ] || { echo "$P-h$J NOT CONFIRMED (code $R)"; continue; }
+  D=/verif/harmless/$P-h$J
   mkdir -p $D
   cp $SRC/patch$I.diff $D/patch.diff; cp $SRC/probe$I.py $D/probe.py
+  if [ "${NOCHECK:-0}" = 1 ]; then echo "check deferred" > /tmp/confirmh.check; CR=None; else
   git -C /repo apply $D/patch.diff && ( cd /verif && VERIF_EVIDENCE_DIR=/tmp/verif_seed_evidence bin/check $P --tier quick > /tmp/confirmh.check 2>&1 ); CR=$?
   git -C /repo checkout -- .
+  fi
   grep "^VIOLATION\|^PASS\|^FAIL\|INFRA" /tmp/confirmh.check | tail -3 | cut -c1-250
   /venv/bin/python - <<PY
 import json
